@@ -50,7 +50,7 @@ def main():
             rc0, o, e, ev = cu.run_yardl(yardl, "generate", cwd, home, args, trace)
             lines += cu.trace_lines(config_line, ev, rc0)
             if rc0 != 0:
-                return case, {"infra": "the valid base project was rejected: " + e[-400:]}, lines
+                return case, {"base_rejected": "exit %s: %s" % (rc0, e[-400:])}, lines
             for d in outs.values():
                 open(os.path.join(d, "stale.txt"), "w").write("left over\n")
         cwd, args = cu.write_project(root, targets, inside, cfg["loc"], cfg["kind"], uses=cfg["uses"])
@@ -71,8 +71,11 @@ def main():
     for case, obs, lines in results:
         cfg = case["cfg"]
         all_lines += lines
-        if "infra" in obs:
-            raise Inconclusive(obs["infra"])
+        if "base_rejected" in obs:
+            # the same valid project is accepted in the loc="none" configurations; here it was refused (or the tool crashed)
+            c.violation("C11:generate:none:valid-rejected", "the valid project (targets %s) was not generated: %s" % (cfg["targets"], obs["base_rejected"][-300:]),
+                        {"cfg": dict(cfg, loc="none"), "observed": obs})
+            continue
         c.count(json.dumps(cfg, sort_keys=True), nontrivial=cfg["loc"] != "none")
         key = "C11:%s:%s:%s" % (cfg["cmd"], cfg["loc"], cfg["kind"])
         replay = {"cfg": cfg, "observed": obs}
